@@ -289,7 +289,7 @@ func (v *Verifier) verifyFunc(cu *FuncUnit, con *Contract) (res *FuncResult) {
 		st.vars[r] = Val{x.ctx.Zero(r.Type()), r.Type()}
 	}
 	for _, g := range v.cs.Ghosts {
-		if g.Pkg == cu.Pkg.PkgPath && g.Type == "int" {
+		if g.Pkg == cu.Pkg.PkgPath && g.Type == "int" && g.Template == "" {
 			st.ghost[g.Name] = Val{x.ctx.Const("ghost_"+g.Name+"$0", "Int"), tInt}
 			x.ghostSorts[g.Name] = "Int"
 		}
@@ -499,10 +499,10 @@ func (x *Exec) emitObls(cu *FuncUnit, con *Contract) {
 			continue
 		}
 		txt := strings.TrimSpace(cl.Text)
-		if !strings.HasPrefix(txt, "\"") {
+		if !strings.HasPrefix(txt, "\"") && !strings.HasPrefix(txt, "`") {
 			panic(evalError{fmt.Sprintf("%s:%d: BINDING: emits needs a quoted format fragment", cl.File, cl.Line)})
 		}
-		end := strings.Index(txt[1:], "\"")
+		end := strings.Index(txt[1:], txt[:1])
 		frag := txt[1 : 1+end]
 		rest := strings.TrimSpace(txt[2+end:])
 		argN := -1
